@@ -117,16 +117,37 @@ func vfEnvNewWorld(t testing.TB, gtype string, w int) *vfEnvW {
 
 // ---- attacker library: only x's own datastore, x's own signing key, the group secrets ----
 
-func (ew *vfEnvW) advKey(gl string, devpk []byte, k uint64) *[32]byte {
+func (ew *vfEnvW) advKey(gl string, devpk []byte, k uint64) (*[32]byte, error) {
 	x := ew.stores["x"]
-	dk := datastore.KeyWithNamespaces([]string{"precomputedMessageKeys", hex.EncodeToString(vfRaw(ew.gpk[gl])), hex.EncodeToString(devpk), strconv.FormatUint(k, 10)})
-	b, err := x.ds.Get(ew.ctx, dk)
+	ghex, dhex, ks := hex.EncodeToString(vfRaw(ew.gpk[gl])), hex.EncodeToString(devpk), strconv.FormatUint(k, 10)
+	b, err := x.ds.Get(ew.ctx, datastore.KeyWithNamespaces([]string{"precomputedMessageKeys", ghex, dhex, ks}))
+	if err != nil {
+		// the layout of the attacker's own datastore may differ from the documented one: look for the
+		// entry of this device and counter (preferring one that names the group) before giving up
+		res, qerr := x.ds.Query(ew.ctx, query.Query{Prefix: "/precomputedMessageKeys"})
+		if qerr == nil {
+			ents, _ := res.Rest()
+			var cand [][]byte
+			for _, e := range ents {
+				if strings.HasSuffix(e.Key, "/"+dhex+"/"+ks) {
+					if strings.Contains(e.Key, ghex) {
+						cand = [][]byte{e.Value}
+						break
+					}
+					cand = append(cand, e.Value)
+				}
+			}
+			if len(cand) == 1 {
+				b, err = cand[0], nil
+			}
+		}
+	}
 	if err != nil || len(b) != 32 {
-		vfInfra(" attacker does not hold message key %s/%x/%d: %v", gl, devpk[:4], k, err)
+		return nil, fmt.Errorf("attacker does not hold message key %s/%x/%d: %v", gl, devpk[:4], k, err)
 	}
 	var key [32]byte
 	copy(key[:], b)
-	return &key
+	return &key, nil
 }
 
 func vfEnvNonce(k uint64) *[24]byte {
@@ -143,20 +164,27 @@ type vfEnvMsg struct {
 	payload []byte
 	plabel  string
 	sig     []byte
+	learned bool
 }
 
 // advLearn: x reads the headers with the group secret and decrypts the body with the key it holds
-func (ew *vfEnvW) advLearn(m *vfEnvMsg) {
+// (a failure here is not fatal: the forgeries that need this envelope are reported as not built)
+func (ew *vfEnvW) advLearn(m *vfEnvMsg) error {
 	menv, hdr, err := ew.stores["x"].ss.OpenEnvelopeHeaders(m.env, ew.groups[m.gl])
 	if err != nil {
-		vfInfra(" attacker cannot read headers of an honest envelope: %v", err)
+		return fmt.Errorf("attacker cannot read headers of an honest envelope: %v", err)
 	}
-	key := ew.advKey(m.gl, hdr.DevicePk, hdr.Counter)
+	key, err := ew.advKey(m.gl, hdr.DevicePk, hdr.Counter)
+	if err != nil {
+		return err
+	}
 	clear, ok := secretbox.Open(nil, menv.Message, vfEnvNonce(hdr.Counter), key)
 	if !ok || !bytes.Equal(clear, m.payload) {
-		vfInfra(" attacker cannot decrypt an honest envelope with the key it holds")
+		return fmt.Errorf("attacker cannot decrypt an honest envelope with the key it holds")
 	}
 	m.sig = hdr.Sig
+	m.learned = true
+	return nil
 }
 
 func vfEnvAssemble(hdrBox, body, nonce []byte) []byte {
@@ -172,7 +200,7 @@ func vfStr(m map[string]any, k string) string {
 	return s
 }
 
-func (ew *vfEnvW) forge(a map[string]any, rnd *rand.Rand, hon map[string]*vfEnvMsg, payload func(string) []byte) []byte {
+func (ew *vfEnvW) forge(a map[string]any, rnd *rand.Rand, hon map[string]*vfEnvMsg, payload func(string) []byte) ([]byte, error) {
 	hs, dv, pl, sgl := vfStr(a, "hs"), vfStr(a, "dv"), vfStr(a, "pl"), vfStr(a, "sg")
 	ct, _ := vfNum(a, "ct")
 	bn, _ := vfNum(a, "bn")
@@ -191,7 +219,16 @@ func (ew *vfEnvW) forge(a map[string]any, rnd *rand.Rand, hon map[string]*vfEnvM
 		if !ok {
 			vfInfra(" unknown key device label %q", vfStr(a, "kd"))
 		}
-		key = ew.advKey(vfStr(a, "kg"), kpk, uint64(kk))
+		var err error
+		if key, err = ew.advKey(vfStr(a, "kg"), kpk, uint64(kk)); err != nil {
+			return nil, err
+		}
+	}
+	// a payload label of an honest envelope is only usable if the attacker could decrypt that envelope
+	for _, m := range hon {
+		if m.plabel == pl && !m.learned {
+			return nil, fmt.Errorf("attacker did not learn payload %s", pl)
+		}
 	}
 	var sig []byte
 	if sgl == "own" {
@@ -200,8 +237,11 @@ func (ew *vfEnvW) forge(a map[string]any, rnd *rand.Rand, hon map[string]*vfEnvM
 		vfMust(nil, err, "attacker signs")
 	} else {
 		m, ok := hon[sgl]
-		if !ok || m.sig == nil {
+		if !ok {
 			vfInfra(" signature source %q unknown", sgl)
+		}
+		if !m.learned {
+			return nil, fmt.Errorf("attacker did not learn the signature of %s", sgl)
 		}
 		sig = m.sig
 	}
@@ -211,7 +251,7 @@ func (ew *vfEnvW) forge(a map[string]any, rnd *rand.Rand, hon map[string]*vfEnvM
 	rnd.Read(hn[:])
 	hdrBox := secretbox.Seal(nil, hb, &hn, ew.groups[hs].GetSharedSecret())
 	body := secretbox.Seal(nil, p, vfEnvNonce(uint64(bn)), key)
-	return vfEnvAssemble(hdrBox, body, hn[:])
+	return vfEnvAssemble(hdrBox, body, hn[:]), nil
 }
 
 // ---- concretisation of Tamper(field) ----
@@ -444,10 +484,14 @@ func vfEnvRun(t testing.TB, sc vfScript) []map[string]any {
 				"dv": vfEnvDK(ew.shared, gl, d), "hdv": hl, "size": len(p)})
 		case "forge":
 			for _, l := range honOrder {
-				ew.advLearn(hon[l])
+				_ = ew.advLearn(hon[l])
 			}
-			forged = ew.forge(a, rnd, hon, payload)
-			ev := map[string]any{"ev": "forge", "i": i, "n": len(forged)}
+			var ferr error
+			forged, ferr = ew.forge(a, rnd, hon, payload)
+			ev := map[string]any{"ev": "forge", "i": i, "n": len(forged), "built": ferr == nil}
+			if ferr != nil {
+				ev["err"] = ferr.Error()
+			}
 			for _, k := range []string{"hs", "dv", "ct", "kg", "kd", "kk", "bn", "pl", "sg"} {
 				ev[k] = a[k]
 			}
@@ -462,10 +506,9 @@ func vfEnvRun(t testing.TB, sc vfScript) []map[string]any {
 			id, gl := vfStr(a, "id"), vfStr(a, "g")
 			switch {
 			case id == "f":
-				if forged == nil {
-					vfInfra(" open of a forgery that was not built")
+				if forged != nil { // a forgery the attacker could not build is not presented
+					out = append(out, open("f", gl, forged, true))
 				}
-				out = append(out, open("f", gl, forged, true))
 			case id == "t":
 				if tBase == nil {
 					vfInfra(" open of a damaged envelope that was not built")
